@@ -1,6 +1,6 @@
 //! C07: the interpreter-based simulator (patronus::sim::Interpreter) on generated systems x
 //! operation histories.  One case per line:
-//!   (case ID (sys ...) (ops OP ...))
+//!   (case ID (sys ...) (ops OP ...) (replay START LEN START2 same|differs|incomplete)?)
 //!   OP = (init zero R) | (init random SEED (oracle V ...) (det ok|differs|crashed) R) | (set SYM bBITS R) | (step R)
 //!      | (get E R) | (count R) | (snapshot R) | (restore K ID R)   -- K: the K-th snapshot taken, ID: the id passed
 //!   R  = (ok) | (bv W bBITS) | (arr IW DW bBITS ...) | (num N) | (panic "file:line")
@@ -33,6 +33,9 @@ struct Case {
     ctx: Context,
     sys: TransitionSystem,
     ops: Vec<Op>,
+    /// (start of h, length of h, start of the replayed copy of h): the history has the shape
+    /// pre ++ [snapshot] ++ h ++ between ++ [restore] ++ h'
+    replay: Option<(usize, usize, usize)>,
 }
 
 pub fn run(args: &Args) {
@@ -40,6 +43,10 @@ pub fn run(args: &Args) {
     let mut out = std::io::BufWriter::new(std::fs::File::create(&args.out).expect("out file"));
     let mut stats = Stats::default();
     let mut distinct = std::collections::HashSet::new();
+    if args.get("probe").is_some() {
+        probe_misuse();
+        return;
+    }
     if let Some(path) = args.get("cases-in") {
         for c in read_cases(path).iter() {
             let case = parse_case(c);
@@ -178,17 +185,18 @@ fn gen_case(rng: &mut Rng, stats: &mut Stats, args: &Args) -> Case {
         roots.extend(s.init);
         roots.extend(s.next);
     }
-    let len = rng.range(1, 60) as usize;
+    let replay_shape = rng.chance(1, 6);
+    let len = if replay_shape { rng.range(3, 24) as usize } else { rng.range(1, 60) as usize };
     let mut ops: Vec<Op> = vec![];
     let mut snapshots = 0u32;
-    let start_uninitialised = rng.chance(1, 25);
+    let start_uninitialised = !replay_shape && rng.chance(1, 25);
     if !start_uninitialised {
         ops.push(gen_init(rng));
     } else {
         stats.inc("history_starts_uninitialised");
     }
     let observe_all = rng.chance(1, 2);
-    let allow_illformed = rng.chance(1, 8);
+    let allow_illformed = !replay_shape && rng.chance(1, 8);
     while ops.len() < len {
         let mut c = rng.below(100);
         if c >= 98 && !allow_illformed {
@@ -267,7 +275,36 @@ fn gen_case(rng: &mut Rng, stats: &mut Stats, args: &Args) -> Case {
             }
         }
     }
-    Case { ctx, sys, ops }
+    if !replay_shape {
+        return Case { ctx, sys, ops, replay: None };
+    }
+    // pre ++ [snapshot] ++ h ++ [read everything] ++ between ++ [restore] ++ h' ++ [read everything]
+    stats.inc("replay_shaped_histories");
+    let i = rng.range(1, ops.len() as u64 - 1) as usize;
+    let j = rng.range(i as u64 + 1, ops.len() as u64) as usize;
+    let count = |v: &[Op]| v.iter().filter(|o| matches!(o, Op::Snapshot)).count() as u32;
+    let k0 = count(&ops[..i]);
+    let bump = |o: &Op, from: u32, by: u32| match o {
+        Op::Restore(r) if *r >= from => Op::Restore(*r + by),
+        other => other.clone(),
+    };
+    let pre: Vec<Op> = ops[..i].to_vec();
+    let mut h: Vec<Op> = ops[i..j].iter().map(|o| bump(o, k0, 1)).collect();
+    for s in decl.iter() {
+        h.push(Op::Get(*s));
+    }
+    let between: Vec<Op> = ops[j..].iter().map(|o| bump(o, k0, 1)).collect();
+    let delta = count(&h) + count(&between);
+    let h2: Vec<Op> = h.iter().map(|o| bump(o, k0 + 1, delta)).collect();
+    let mut all = pre;
+    all.push(Op::Snapshot);
+    let start = all.len();
+    all.extend(h.iter().cloned());
+    all.extend(between);
+    all.push(Op::Restore(k0));
+    let start2 = all.len();
+    all.extend(h2);
+    Case { ctx, sys, ops: all, replay: Some((start, h.len(), start2)) }
 }
 
 fn gen_init(rng: &mut Rng) -> Op {
@@ -304,7 +341,8 @@ fn parse_case(c: &Sexp) -> Case {
             other => panic!("unknown op {other}"),
         }
     }
-    Case { ctx, sys, ops }
+    let replay = c.field("replay").map(|f| (f[0].num() as usize, f[1].num() as usize, f[2].num() as usize));
+    Case { ctx, sys, ops, replay }
 }
 
 fn all_indices(iw: WidthInt) -> Vec<BitVecValue> {
@@ -331,7 +369,7 @@ fn panic_result() -> String {
 }
 
 fn run_case(id: &str, case: Case, stats: &mut Stats) -> (String, String) {
-    let Case { ctx, sys, ops } = case;
+    let Case { ctx, sys, ops, replay } = case;
     // shape statistics
     stats.bump("states", &format!("{}", sys.states.len()));
     stats.bump("inputs", &format!("{}", sys.inputs.len()));
@@ -359,7 +397,10 @@ fn run_case(id: &str, case: Case, stats: &mut Stats) -> (String, String) {
     let mut executed = 0usize;
     // ids the implementation returned, in order: `Restore(k)` restores the k-th snapshot taken
     let mut returned_ids: Vec<u32> = vec![];
+    // what every executed `get` returned (None for the other operations)
+    let mut got: Vec<Option<String>> = vec![];
     for op in ops.iter() {
+        got.push(None);
         executed += 1;
         let mut crashed = false;
         match op {
@@ -446,6 +487,7 @@ fn run_case(id: &str, case: Case, stats: &mut Stats) -> (String, String) {
                         panic_result()
                     }
                 };
+                *got.last_mut().unwrap() = Some(res.clone());
                 let t = format!(" (get {}", dump_expr(&ctx, *e));
                 key.push_str(&t);
                 txt.push_str(&format!("{t} {res})"));
@@ -497,5 +539,82 @@ fn run_case(id: &str, case: Case, stats: &mut Stats) -> (String, String) {
         }
     }
     stats.add("ops_executed", executed as u64);
-    (format!("(case {id} {sys_txt} (ops{txt}))"), key)
+    // direct check of "the continuation behaves as it did the first time": same reads, pairwise
+    let mut replay_txt = String::new();
+    if let Some((start, n, start2)) = replay {
+        let verdict = if executed == ops.len() && start2 + n == ops.len() {
+            stats.inc("replays_completed");
+            if (0..n).all(|k| got[start + k] == got[start2 + k]) { "same" } else { "differs" }
+        } else {
+            "incomplete"
+        };
+        stats.bump("replay_verdict", verdict);
+        replay_txt = format!(" (replay {start} {n} {start2} {verdict})");
+    }
+    (format!("(case {id} {sys_txt} (ops{txt}){replay_txt})"), key)
+}
+
+/// `--probe 1`: what `Simulator::set` does outside its contract (the calls the model answers with
+/// `Unmodelled`).  Prints to stdout; not part of any stream.  See REPORT-C07.md.
+fn probe_misuse() {
+    let show = |r: Result<String, String>| match r {
+        Ok(s) => s,
+        Err(m) => format!("panic: {m} @ {}", last_panic_loc()),
+    };
+    // P1: a value wider than the symbol spills into the next symbol's words
+    {
+        let mut ctx = Context::default();
+        let a = ctx.bv_symbol("a", 8);
+        let b = ctx.bv_symbol("b", 8);
+        let mut sys = TransitionSystem::new("p1".to_string());
+        sys.add_state(&ctx, State { symbol: a, init: None, next: None });
+        sys.add_state(&ctx, State { symbol: b, init: None, next: None });
+        let mut sim = Interpreter::new(&ctx, &sys);
+        sim.init(InitKind::Zero);
+        let v = BitVecValue::from_bit_str(&format!("1{}1", "0".repeat(68))).unwrap(); // 70 bits: 2^69 + 1
+        let r = guarded(|| {
+            sim.set(a, &v);
+            format!("a={} b={}", dump_value(&sim.get(a)), dump_value(&sim.get(b)))
+        });
+        println!("P1 set(a:bv8, 70-bit value 2^69+1), b:bv8 untouched?  {}", show(r));
+    }
+    // P2: a wider value that fits the same number of words leaves a non-canonical value
+    {
+        let mut ctx = Context::default();
+        let a = ctx.bv_symbol("a", 3);
+        let seven = ctx.bv_lit(&BitVecValue::from_u64(7, 3));
+        let eq7 = ctx.equal(a, seven);
+        let mut sys = TransitionSystem::new("p2".to_string());
+        sys.add_state(&ctx, State { symbol: a, init: None, next: None });
+        let mut sim = Interpreter::new(&ctx, &sys);
+        sim.init(InitKind::Zero);
+        let v = BitVecValue::from_u64(0xff, 8);
+        let r = guarded(|| {
+            sim.set(a, &v);
+            let x = sim.get(a);
+            let raw = match &x {
+                Value::BitVec(b) => format!("width {} words {:?}", b.width(), b.words()),
+                _ => String::new(),
+            };
+            format!("a: {raw}; (a == 7) = {}", dump_value(&sim.get(eq7)))
+        });
+        println!("P2 set(a:bv3, 8-bit value 0xff)  {}", show(r));
+    }
+    // P3: the key of an array symbol is used as an index into the bit-vector words
+    {
+        let mut ctx = Context::default();
+        let m = ctx.array_symbol("m", 2, 8);
+        let a = ctx.bv_symbol("a", 8);
+        let mut sys = TransitionSystem::new("p3".to_string());
+        sys.add_state(&ctx, State { symbol: m, init: None, next: None });
+        sys.add_state(&ctx, State { symbol: a, init: None, next: None });
+        let mut sim = Interpreter::new(&ctx, &sys);
+        sim.init(InitKind::Zero);
+        let v = BitVecValue::from_u64(5, 8);
+        let r = guarded(|| {
+            sim.set(m, &v);
+            format!("m={} a={}", dump_value(&sim.get(m)), dump_value(&sim.get(a)))
+        });
+        println!("P3 set(m:array, 8-bit value 5), a:bv8 untouched?  {}", show(r));
+    }
 }
